@@ -109,6 +109,103 @@ class Modules(object):
 
 MODULES = Modules()
 
+LOCALS_FILE = os.path.join(ROOT, 'contracts', 'LOCALS.json')
+_locals_rec = None
+
+
+def ordered_locals(fdef):
+    """parameter names, then every name bound in the body, in order of first binding (source order)"""
+    out = [a.arg for a in fdef.args.args]
+    if fdef.args.vararg:
+        out.append(fdef.args.vararg.arg)
+    seen = set(out)
+
+    def targets(t):
+        if isinstance(t, ast.Name):
+            yield t.id
+        elif isinstance(t, (ast.Tuple, ast.List)):
+            for e in t.elts:
+                yield from targets(e)
+        elif isinstance(t, ast.Starred):
+            yield from targets(t.value)
+
+    class V(ast.NodeVisitor):
+        def visit_FunctionDef(self, n):
+            if n is not fdef:
+                return              # nested functions have their own scope
+            self.generic_visit(n)
+
+        def _bind(self, t):
+            for nm in targets(t):
+                if nm not in seen:
+                    seen.add(nm)
+                    out.append(nm)
+
+        def visit_Assign(self, n):
+            self.generic_visit(n)
+            for t in n.targets:
+                self._bind(t)
+
+        def visit_AugAssign(self, n):
+            self.generic_visit(n)
+            self._bind(n.target)
+
+        def visit_For(self, n):
+            self._bind(n.target)
+            self.generic_visit(n)
+
+    V().visit(fdef)
+    return out
+
+
+def recorded_locals():
+    global _locals_rec
+    if _locals_rec is None:
+        import json
+        try:
+            _locals_rec = json.load(open(LOCALS_FILE))
+        except (OSError, ValueError):
+            _locals_rec = {}
+    return _locals_rec
+
+
+def rename_contract(lib, key, fdef):
+    """If the function's locals differ from the ones recorded when its contract was written ONLY by a consistent renaming (same
+    number of names, same order of first binding), return the contract with the old names replaced by the new ones, and the mapping.
+    A wrong guess cannot make anything pass: the renamed contract is still verified against the real code."""
+    import copy
+    import re
+    rec = recorded_locals().get(key.split('#')[0])
+    c = lib.contracts[key]
+    if not rec:
+        return c, {}
+    cur = ordered_locals(fdef)
+    if cur == rec or len(cur) != len(rec):
+        return c, {}
+    mapping = {o: n for o, n in zip(rec, cur) if o != n}
+    if not mapping or set(mapping.values()) & (set(rec) - set(mapping)):
+        return c, {}
+    raw = copy.deepcopy(lib.raw_contracts[key])
+    pat = re.compile(r'(?<![\w.\'"])(%s)(?![\w\'"])' % '|'.join(re.escape(o) for o in sorted(mapping, key=len, reverse=True)))
+
+    def sub(x):
+        if isinstance(x, str):
+            return pat.sub(lambda m: mapping[m.group(1)], x)
+        if isinstance(x, list):
+            return [sub(y) for y in x]
+        if isinstance(x, tuple):
+            return tuple(sub(y) for y in x)
+        if isinstance(x, dict):
+            return {(sub(k) if isinstance(k, str) and k in mapping else k): sub(v) for k, v in x.items()}
+        return x
+    for fld in ('requires', 'ensures', 'loops', 'hints', 'modifies', 'modifies_scalar', 'result_term'):
+        if fld in raw:
+            raw[fld] = sub(raw[fld])
+    raw['params'] = [(mapping.get(p, p), t) for p, t in raw['params']]
+    if 'defaults' in raw:
+        raw['defaults'] = {mapping.get(k, k): v for k, v in raw['defaults'].items()}
+    return executor.Contract(key, raw), mapping
+
 
 def gen_function_vcs(lib, key):
     """key = 'pyclifford/utils.py::acq'.  returns (vcs, info)"""
@@ -127,6 +224,9 @@ def gen_function_vcs(lib, key):
     if c.trusted or c.bounded_only:
         info['status'] = 'trusted' if c.trusted else 'bounded_only'
         return [], info
+    c, renamed = rename_contract(lib, key, fdef)
+    if renamed:
+        info['renamed_locals'] = renamed
     fv = executor.FuncVerifier(lib, filekey, fdef, c, module_function_names(filekey), modules=MODULES,
                                class_name=qual.split('.')[0] if '.' in qual else None)
     try:
